@@ -16,10 +16,10 @@ structure RespSpec where
   kind : String := "copy"
   code : Nat := 200
   size : Nat := 5
-  flags : Nat := 0
-  conn : Option Bytes := none
-  hdrs : List (Bytes × Bytes) := []
-  bad : Bool := false       -- a header operation this driver does not model
+  flags : Nat := 0                       -- `flags=`: options set right after creation (canonical numbering)
+  obj : Mhd.Resp.Resp := {}              -- the response object after all calls (C04's model of response.c)
+  rets : List Nat := []                  -- results of the calls, in order: 1 MHD_YES, 0 MHD_NO
+  bad : Bool := false                    -- a call for which the model has no answer (crash site)
 
 structure DS where
   d : Daemon
@@ -30,6 +30,7 @@ structure DS where
   resps : List (Nat × RespSpec) := []
   behs : List ((Nat × Nat) × Beh) := []
   hints : List (Nat × List Nat) := []
+  noDate : Bool := false           -- MHD_USE_SUPPRESS_DATE_NO_CLOCK
   printed : List (Nat × Nat) := []      -- per connection: number of log entries already printed
   sawUpgrade : List Nat := []           -- connections whose `upgrade` event has been printed
 
@@ -40,10 +41,8 @@ def lookup {α} (l : List (Nat × α)) (k : Nat) : Option α := (l.find? (·.1 =
 def asciiLower (bs : Bytes) : Bytes := bs.map lower
 
 def respOf (resps : List (Nat × RespSpec)) (rid : Nat) : Resp :=
-  let s := (lookup resps rid).getD {}
-  { upgrade := s.kind == "upgrade" || s.kind == "upgrade-hc",
-    closeInHandler := s.kind == "upgrade-hc",
-    code := s.code, connHdr := s.conn, hdrs := s.hdrs, flags10 := s.flags % 4 != 0 }
+  let s := (lookup resps rid).getD { obj := Mhd.Resp.Resp.create 5 }
+  { obj := s.obj, closeInHandler := s.kind == "upgrade-hc", code := s.code }
 
 /-- canonical text of an ordinary reply (tools/props/C20.py parses the real one into this) -/
 def renderOf (resps : List (Nat × RespSpec)) (rid : Nat) : Bytes :=
@@ -58,6 +57,20 @@ def findCrlfCrlf : Bytes → Option Nat
 
 def firstLine (bs : Bytes) : Bytes := bs.takeWhile (· != 13)
 
+def splitLines : Bytes → List Bytes
+  | [] => [[]]
+  | 13 :: 10 :: r => [] :: splitLines r
+  | b :: r => match splitLines r with
+    | l :: ls => (b :: l) :: ls
+    | [] => [[b]]
+
+/-- `MHD_lookup_header_s_token_ci (c, "Connection", "close")` on the generated heads
+    (field lines `Connection: <value>`, any case of the name) -/
+def reqHasConnToken (head : Bytes) (tok : Bytes) : Bool :=
+  (splitLines head).any fun l =>
+    let name := l.takeWhile (· != 58)
+    asciiLower name == asciiLower Mhd.Gen.Upg.hdrConnection && hasToken ((l.dropWhile (· != 58)).drop 1) tok
+
 /-- well-formed generated requests only: head ends at the first CRLFCRLF, version is the
     last word of the request line, method the first -/
 def parseHead (bs : Bytes) : Option Head :=
@@ -69,18 +82,20 @@ def parseHead (bs : Bytes) : Option Head :=
     let v := ws.getLast?.getD ""
     let ver := if v == "HTTP/1.0" then Ver.v10 else if v == "HTTP/1.1" then Ver.v11
                else if v.startsWith "HTTP/1." then Ver.v12 else Ver.future
-    some { len := n, ver := ver, connect := ws.head? == some "CONNECT", wantsClose := false }
+    some { len := n, ver := ver, connect := ws.head? == some "CONNECT",
+           wantsClose := reqHasConnToken (bs.take n) "close".toUTF8.toList }
 
 def dateMask : Bytes := "D".toUTF8.toList
 
-def mkBase (upg : Bool) (resps : List (Nat × RespSpec)) : Cfg :=
+def mkBase (upg : Bool) (resps : List (Nat × RespSpec)) (noDate : Bool := false) : Cfg :=
   { allowUpgrade := upg, parser := ⟨parseHead⟩, resp := respOf resps,
-    beh := fun _ => { early := false, tries := [0] }, date := dateMask, render := renderOf resps }
+    beh := fun _ => { early := false, tries := [0] }, date := dateMask, suppressDate := noDate,
+    render := renderOf resps }
 
 def behOf (behs : List ((Nat × Nat) × Beh)) (c r : Nat) : Beh :=
   ((behs.find? (fun e => e.1.1 == c && e.1.2 == r)).map (·.2)).getD { early := false, tries := [0] }
 
-def freshDaemon (s : DS) : Daemon := Daemon.init (mkBase s.upgradeFlag s.resps) (behOf s.behs)
+def freshDaemon (s : DS) : Daemon := Daemon.init (mkBase s.upgradeFlag s.resps s.noDate) (behOf s.behs)
 
 def kvOf (w key : String) : Option String :=
   if w.startsWith (key ++ "=") then some (w.drop (key.length + 1)).toString else none
@@ -90,27 +105,39 @@ def parseRids (spec : String) : Option (List Nat) :=
 
 def isConnName (n : Bytes) : Bool := asciiLower n == asciiLower Mhd.Gen.Upg.hdrConnection
 
-def applyHdr (s : RespSpec) (kind : Char) (n v : Bytes) : RespSpec :=
-  if kind == 'h' then
-    if isConnName n then
-      match s.conn with
-      | none => { s with conn := some v }
-      | some old => { s with conn := some (old ++ [44, 32] ++ v) }
-    else { s with hdrs := s.hdrs ++ [(n, v)] }
-  else if kind == 'd' then
-    if isConnName n then
-      match s.conn with
-      | some old => if asciiLower old == asciiLower v then { s with conn := none } else { s with bad := true }
-      | none => s
-    else { s with bad := true }
-  else { s with bad := true }
+/-- canonical numbering of the line protocol (the harness maps it to the real enum values):
+    response flags strict=1 server=2 insanity=4 keepalive-hdr=8 head-only=16 -/
+def bitOf (n k : Nat) : Bool := (n / k) % 2 == 1
+def rflagsOfNat (n : Nat) : Mhd.Resp.RFlags :=
+  { http10Strict := bitOf n 1, http10Server := bitOf n 2, insanity := bitOf n 4, sendKeepAlive := bitOf n 8, headOnly := bitOf n 16 }
+def natOfRFlags (f : Mhd.Resp.RFlags) : Nat :=
+  (if f.http10Strict then 1 else 0) + (if f.http10Server then 2 else 0) + (if f.insanity then 4 else 0) +
+  (if f.sendKeepAlive then 8 else 0) + (if f.headOnly then 16 else 0)
+/-- flags_auto conn=1 close=2 te=4 cl=8 date=16 -/
+def natOfAuto (f : Mhd.Resp.AutoFlags) : Nat :=
+  (if f.connHdr then 1 else 0) + (if f.connClose then 2 else 0) + (if f.transEnc then 4 else 0) +
+  (if f.contentLength then 8 else 0) + (if f.date then 16 else 0)
 
-def parseResp (ws : List String) : Option RespSpec :=
-  ws.foldlM (init := ({} : RespSpec)) fun s w =>
+/-- one API call on the response object, through C04's model of response.c -/
+def applyTo (s : RespSpec) (c : Mhd.Resp.Call) : RespSpec :=
+  match Mhd.Resp.applyCall s.obj c with
+  | (.yes, r) => { s with obj := r, rets := s.rets ++ [1] }
+  | (.no, r) => { s with obj := r, rets := s.rets ++ [0] }
+  | (.crash, _) => { s with bad := true }
+
+def hex2 (w : String) : Option (Bytes × Bytes) :=
+  match w.splitOn ":" with
+  | [a, b] => match bytesOfHex a, bytesOfHex b with
+    | some n, some v => some (n, v)
+    | _, _ => none
+  | _ => none
+
+/-- `resp <rid> kind=… code=… size=… flags=… (h=N:V | d=N:V | o=<flags>)*`: the object is created,
+    `flags=` (if non-zero) is set, then the calls are made in the order written -/
+def parseResp (ws : List String) : Option RespSpec := do
+  let s0 ← ws.foldlM (init := ({} : RespSpec)) fun s w =>
     match kvOf w "kind" with
-    | some k =>
-      if k == "upgrade" || k == "upgrade-hc" then some { s with kind := k, conn := some "Upgrade".toUTF8.toList }
-      else some { s with kind := k }
+    | some k => some { s with kind := k }
     | none =>
     match kvOf w "code" with
     | some v => v.toNat?.map fun n => { s with code := n }
@@ -121,15 +148,26 @@ def parseResp (ws : List String) : Option RespSpec :=
     match kvOf w "flags" with
     | some v => v.toNat?.map fun n => { s with flags := n }
     | none =>
-    let hd := if w.startsWith "h=" then some 'h' else if w.startsWith "d=" then some 'd' else none
-    match hd with
-    | some k =>
-      match ((w.drop 2).toString.splitOn ":") with
-      | [a, b] => match bytesOfHex a, bytesOfHex b with
-        | some n, some v => some (applyHdr s k n v)
-        | _, _ => none
-      | _ => none
-    | none => none
+    if w.startsWith "h=" || w.startsWith "d=" || w.startsWith "o=" || w.startsWith "f=" then some s else none
+  let created : Mhd.Resp.Resp :=
+    if s0.kind == "upgrade" || s0.kind == "upgrade-hc" then Mhd.Resp.Resp.createUpgrade
+    else if s0.kind == "empty" then Mhd.Resp.Resp.createEmpty {}
+    else Mhd.Resp.Resp.create s0.size
+  let s1 : RespSpec := { s0 with obj := created }
+  -- `if (r->flags) MHD_set_response_options (…)`: the result is not reported by the harness
+  let s2 : RespSpec :=
+    if s1.flags != 0 then { s1 with obj := (Mhd.Resp.setOptions s1.obj (rflagsOfNat s1.flags)).2 } else s1
+  ws.foldlM (init := s2) fun s w =>
+    if w.startsWith "h=" then (hex2 (w.drop 2).toString).map fun (n, v) => applyTo s (.add n v)
+    else if w.startsWith "d=" then (hex2 (w.drop 2).toString).map fun (n, v) => applyTo s (.del n v)
+    else if w.startsWith "f=" then (hex2 (w.drop 2).toString).map fun (n, v) => applyTo s (.foot n v)
+    else if w.startsWith "o=" then (w.drop 2).toString.toNat?.map fun n => applyTo s (.opt (rflagsOfNat n))
+    else some s
+
+def showObj (rid : Nat) (s : RespSpec) : String :=
+  let ents := s.obj.hdrs.map fun h =>
+    (if h.kind == .header then "H:" else "F:") ++ hexOfBytes h.name ++ "=" ++ hexOfBytes h.value
+  s!"obj rid={rid} rets={",".intercalate (s.rets.map toString)} fa={natOfAuto s.obj.fa} fl={natOfRFlags s.obj.flags} ents={",".intercalate ents}"
 
 def showEv (x : Conn) : Ev → List String
   | .start => ["start"]
@@ -203,12 +241,14 @@ def stepLine0 (s : DS) (ws : List String) : DS × List String :=
     if s.started then (s, ["bad-op"]) else
     let u := rest.any fun w => kvOf w "upgrade" == some "1"
     let e := rest.any fun w => (kvOf w "mode").any (·.startsWith "epoll")
-    ({ s with upgradeFlag := u, epoll := e }, ["ok"])
+    let nd := rest.any fun w => kvOf w "nodate" == some "1"
+    ({ s with upgradeFlag := u, epoll := e, noDate := nd }, ["ok"])
   | "resp" :: rid :: rest =>
     match rid.toNat?, parseResp rest with
     | some r, some sp =>
       let s := { s with resps := (r, sp) :: s.resps.filter (·.1 != r) }
-      ({ s with d := { s.d with base := mkBase s.upgradeFlag s.resps } }, [if sp.bad then "unsupported" else "ok"])
+      ({ s with d := { s.d with base := mkBase s.upgradeFlag s.resps s.noDate } },
+       [if sp.bad then "unsupported" else "ok", showObj r sp])
     | _, _ => (s, ["bad-op"])
   | "beh" :: c :: r :: rest =>
     match c.toNat?, r.toNat? with
